@@ -31,6 +31,104 @@ func runC09(c *engine.Ctx) {
 	c.Rule("R7", "inside a Close method that carries an idempotence guard, every port release and channel close happens on the guarded (first-close) path")
 	checkGuardedRelease(c, buildResTable(c))
 	checkAllowListParse(c, "R8")
+	checkAcquireSuccess(c, "R9")
+	checkReleaseGuard(c, "R10")
+}
+
+// checkAcquireSuccess (R9): Manager.Acquire returns a nil error only on paths that inserted the granted port into
+// usedPorts — "no port found" must never look like success (callers would bind port 0 and get an ephemeral port that
+// is outside the allowed set, unrecorded and reported as ":0").
+func checkAcquireSuccess(c *engine.Ctx, rule string) {
+	c.Rule(rule, "Manager.Acquire: every exit whose error is nil has inserted a port into usedPorts on its path")
+	acq := fn(c, "server/ports.Manager.Acquire")
+	usedF := field(c, "server/ports", "Manager", "usedPorts")
+	if acq == nil || usedF == nil {
+		return
+	}
+	var track []ssa.Value
+	engine.ForEachInstr(acq, func(in ssa.Instruction) {
+		if r, ok := in.(*ssa.Return); ok {
+			track = append(track, r.Results...)
+		}
+	})
+	c.AllPaths("server/ports.Manager.Acquire>success-has-port", engine.PathCheck{Fn: acq, Sink: engine.IsReturn, Track: track,
+		Event: func(in ssa.Instruction) string {
+			if mu, ok := in.(*ssa.MapUpdate); ok && isMapField(mu.Map, usedF) {
+				return "insert"
+			}
+			return ""
+		},
+		Pred: func(st *engine.PathState) string {
+			r := st.Sink.(*ssa.Return)
+			ev := st.Resolve(r.Results[len(r.Results)-1])
+			if !engine.IsNilConst(ev) {
+				if isNil, known := st.IsNil(func(x ssa.Value) bool { return x == ev }); !(known && isNil) {
+					return "" // an error (or an error of unknown value) is returned
+				}
+			}
+			if !st.HasEvent("insert") {
+				return "Acquire returns a nil error on a path that granted no port (nothing was inserted into usedPorts): the caller binds port 0"
+			}
+			return ""
+		}}, "nil error ⇒ a port was granted")
+	c.Floor(1, 1)
+}
+
+// checkReleaseGuard (R10): a proxy releases a port in Close under the same condition under which Run acquired it. The
+// tcp proxy acquires only when it is not in a load-balancing group (the group owns the port then); a Close that
+// releases for a grouped member takes the port away from the group's remaining members.
+func checkReleaseGuard(c *engine.Ctx, rule string) {
+	c.Rule(rule, "server/proxy: where Run acquires a port only under `LoadBalancer.Group == \"\"`, Close releases it only under that same condition")
+	p := c.P
+	acqO := method(c, "server/ports", "Manager", "Acquire")
+	relO := method(c, "server/ports", "Manager", "Release")
+	if acqO == nil || relO == nil {
+		return
+	}
+	groupEmpty := func(st *engine.PathState) (bool, bool) {
+		return st.Equal(func(v ssa.Value) bool { f, _ := engine.LoadedField(v); return f != nil && f.Name() == "Group" },
+			func(v ssa.Value) bool { s, ok := engine.ConstString(v); return ok && s == "" })
+	}
+	n := 0
+	pk := p.Pkg("server/proxy")
+	if pk == nil {
+		return
+	}
+	for _, name := range pk.Types.Scope().Names() {
+		run := p.FuncOf(p.MethodObj("server/proxy", name, "Run"))
+		cls := p.FuncOf(p.MethodObj("server/proxy", name, "Close"))
+		if run == nil || cls == nil || len(engine.CallsTo(run, acqO)) == 0 {
+			continue
+		}
+		// is every acquisition in Run under Group == ""?
+		guarded := true
+		for _, ac := range engine.CallsTo(run, acqO) {
+			q := &engine.PathQuery{Fn: run, Sink: engine.Is(ac)}
+			states, err := q.Run()
+			if err != nil || len(states) == 0 {
+				guarded = false
+				continue
+			}
+			for _, st := range states {
+				if v, k := groupEmpty(st); !(k && v) {
+					guarded = false
+				}
+			}
+		}
+		if !guarded {
+			continue
+		}
+		for _, rc := range engine.CallsTo(cls, relO) {
+			n++
+			c.AllPaths("server/proxy."+name+".Close>release-guard", engine.PathCheck{Fn: cls, Sink: engine.Is(rc), Pred: func(st *engine.PathState) string {
+				if v, k := groupEmpty(st); !(k && v) {
+					return "Close releases the port on a path where the proxy was not found to be outside a group, but Run acquires it only outside a group: a leaving group member frees the port the group still listens on"
+				}
+				return ""
+			}}, "release under the acquisition's condition")
+		}
+	}
+	c.Floor(n, 1)
 }
 
 // checkAllowListParse (R8): the operator's allow-list is what NewPortsRangeSliceFromString makes of a string. If its
